@@ -194,9 +194,36 @@ func c15Play(c *c15Case) (msg string, nt bool) {
 				}
 				cleared = true
 			case "Clear":
+				// a second handle on the same memory (the CPU's Memory field, a by-value parameter) sees it emptied too
+				alias := pool[v]
 				pool[v].Clear()
+				for k := range models[v] {
+					if g := alias.Get(k); g != 0xC7 {
+						return fmt.Sprintf("op %d: after Clear another handle on the same memory still reads %02x at %#04x", i, g, k), nt
+					}
+				}
+				if len(models[v]) > 0 {
+					nt = true
+				}
 				models[v] = map[uint16]uint8{}
 				cleared = true
+			case "ReadOnly":
+				// reading is not writing: after Gets of written and unwritten addresses the memory still equals the clone
+				// taken before them (whatever Equal makes of explicit-default entries, both sides have the same)
+				cl := pool[v].Clone()
+				for _, k := range []uint16{a, a + 1, a - 1, 0, 0xFFFF, uint16(op.W) * 257} {
+					want, ok := models[v][k]
+					if !ok {
+						want = 0xC7
+					}
+					if g := pool[v].Get(k); g != want {
+						return fmt.Sprintf("op %d: Get(%#04x)=%02x want %02x", i, k, g, want), nt
+					}
+				}
+				if !pool[v].Equal(cl) || !cl.Equal(pool[v]) {
+					return fmt.Sprintf("op %d: after nothing but Gets the memory is no longer Equal to the clone taken before them", i), nt
+				}
+				nt = true
 			case "EqualNil":
 				// "Equal is true exactly for initialised MapMemory values": an uninitialised operand makes it false
 				// (nil against nil is not asserted)
@@ -285,7 +312,7 @@ func TestC15(t *testing.T) {
 	col.Sub = "mem"
 	defer finish(t, col)
 	col.Rule = "rapid-generated operation histories: DumbMemory of length in {0,1,2,255,256,257,65535,65536,random} with Get/Set anywhere in 0..65535 (biased to len-1, len, len+1) and Put of blocks inside the slice; " +
-		"DumbIO of length 0..300 over all 256 ports; MapMemory pools of up to four live values with Set/Put (blocks wrapping past 0xFFFF, now and then 65535..65600 bytes)/Clone/Clear/Equal (also against an uninitialised value); after every operation all touched addresses, " +
+		"DumbIO of length 0..300 over all 256 ports; MapMemory pools of up to four live values with Set/Put (blocks wrapping past 0xFFFF, now and then 65535..65600 bytes)/Clone/Clear (seen through a second handle)/Equal (also against an uninitialised value, and against a clone after nothing but reads); after every operation all touched addresses, " +
 		"their neighbours and the ends of the address space are read back and compared with an array / map model; Equal compared with model equality (explicit-default vs absent entries not asserted) and must be false " +
 		"for other dynamic types; non-trivial = history with an out-of-range access (slice types) or writes after Clone/Clear or a wrapping Put (map); distinct by hash(history)"
 	rapid.Check(t, func(t *rapid.T) {
@@ -344,7 +371,7 @@ func TestC15(t *testing.T) {
 			addr := rapid.OneOf(rapid.SampledFrom([]int{0, 1, 2, 0xFFFE, 0xFFFF, 0x8000, 0x7FFF, 0x0100}), rapid.IntRange(0, 65535))
 			val := rapid.SampledFrom([]int{0x00, 0xC7, 0xC7, 0x01, 0xFF})
 			for i := 0; i < nops; i++ {
-				op := c15Op{Op: rapid.SampledFrom([]string{"Set", "Set", "Put", "Put", "Clone", "Clear", "Equal", "Equal", "Equal", "EqualNil"}).Draw(t, "op")}
+				op := c15Op{Op: rapid.SampledFrom([]string{"Set", "Set", "Put", "Put", "Clone", "Clear", "Equal", "Equal", "Equal", "EqualNil", "ReadOnly"}).Draw(t, "op")}
 				op.V, op.W = rapid.IntRange(0, 3).Draw(t, "v"), rapid.IntRange(0, 3).Draw(t, "w")
 				op.Addr = addr.Draw(t, "addr")
 				switch op.Op {
